@@ -593,6 +593,9 @@ func ReplayExploration(c *Check) bool {
 	if e.Diverged != "" {
 		fmt.Println("replay diverged:", e.Diverged)
 	}
+	for _, st := range e.PanicStacks {
+		fmt.Println("panic stack:\n" + st)
+	}
 	if msg != "" {
 		fmt.Printf("VIOLATION property=%s replay=%s\n  %s\n", c.ID, c.Replay, msg)
 		return true
